@@ -773,7 +773,11 @@ def interop(col, seed, n):
         "cversion": st.sampled_from([10, 11, 12, 13, 14, 15, 16, 17, 18]), "sversions": st.sampled_from([[8, 13], [13], [8]]),
         "cprotos": st.sampled_from([[], ["a"], ["a", "b"], ["wamp.2.json", "wamp.2.cbor"]]), "sprotos": st.sampled_from([[], ["b", "a"], ["wamp.2.cbor"], ["zzz"]]),
         "origin": st.sampled_from([None, "http://good.com", "null"]), "headers": st.sampled_from([None, {"X-Custom": "1"}, {"Cookie": "a=b"}]),
-        "coffer": st.booleans(), "saccept": st.booleans(), "useragent": st.sampled_from([None, "", "ua/1"]), "schedule": st.lists(st.tuples(st.integers(0, 1), st.integers(1, 40)), max_size=8)})
+        "coffer": st.booleans(), "saccept": st.booleans(),
+        # non-default offers (accept_no_context_takeover, accept_max_window_bits, request_no_context_takeover, request_max_window_bits) and server policies
+        # (ask the client for no-context-takeover / a window limit; RFC 7692 lets a server ask for the former even when the offer carries no hint)
+        "offer_p": st.one_of(st.none(), st.tuples(st.booleans(), st.booleans(), st.booleans(), st.sampled_from([0, 9, 12, 15]))),
+        "accept_p": st.one_of(st.none(), st.fixed_dictionaries({"rnct": st.booleans(), "rmwb": st.sampled_from([0, 9, 12])})), "useragent": st.sampled_from([None, "", "ua/1"]), "schedule": st.lists(st.tuples(st.integers(0, 1), st.integers(1, 40)), max_size=8)})
 
     def body(c):
         from harness import drv, wsutil
@@ -787,11 +791,13 @@ def interop(col, seed, n):
             sopts = {"versions": c["sversions"], "allowNullOrigin": True, "openHandshakeTimeout": 0}
             if c["coffer"]:
                 from autobahn.websocket.compress import PerMessageDeflateOffer, PerMessageDeflateResponseAccept
-                copts["perMessageCompressionOffers"] = [PerMessageDeflateOffer()]
+                copts["perMessageCompressionOffers"] = [PerMessageDeflateOffer(*c["offer_p"]) if c.get("offer_p") else PerMessageDeflateOffer()]
                 copts["perMessageCompressionAccept"] = lambda r: PerMessageDeflateResponseAccept(r)
             if c["saccept"]:
                 from autobahn.websocket.compress import PerMessageDeflateOfferAccept
-                sopts["perMessageCompressionAccept"] = lambda offers: PerMessageDeflateOfferAccept(offers[0])
+                ap = c.get("accept_p") or {"rnct": False, "rmwb": 0}
+                sopts["perMessageCompressionAccept"] = lambda offers: PerMessageDeflateOfferAccept(
+                    offers[0], request_no_context_takeover=ap["rnct"], request_max_window_bits=(ap["rmwb"] if offers[0].accept_max_window_bits else 0))
 
             def on_connect(proto, request):
                 for p in c["sprotos"]:
